@@ -27,7 +27,7 @@ func preBuffer(err error) bool {
 
 func TestBufferLimitsAndFlush(t *testing.T) {
 	rapid.Check(t, func(rt *rapid.T) {
-		plan := wl.GenProdPlan(rt, wl.ProdFocus{SmallLimits: true, NoFaults: true, DelayFaults: true})
+		plan := wl.GenProdPlan(rt, wl.ProdFocus{SmallLimits: true, NoFaults: true, DelayFaults: true, MutateInPromise: true})
 		var o *wl.ProdObs
 		var blockedSeen, cancelWhileBlocked, flushOverlap bool
 		bubble.Run(t, rt, func(e *bubble.Env) {
